@@ -760,6 +760,12 @@ func (ex *Exec) evalCall(x ECall, st *State, env *Env) TV {
 		mt := m.T.Underlying().(*types.Map)
 		_, ok := ex.mapLookup(st, mt, sc(m.V), k.V)
 		return TV{Sc{ok}, tBool}
+	case "fname": // static name of a function value ("" when it is not a known function)
+		v := arg(0)
+		if fv, ok := v.V.(FuncV); ok && fv.Fn != nil {
+			return TV{Sc{ex.strConst(fv.Fn.Name())}, tString}
+		}
+		return TV{Sc{ex.strConst("")}, tString}
 	case "boxof": // the interface value holding e (as MakeInterface builds it)
 		v := arg(0)
 		tn := ""
